@@ -364,6 +364,7 @@ func c15Checker(c *Ctx, f *Fn, isZip bool) {
 			gateSpec{"cue-mod-case", c15NeqConst(info, "cue.mod"), false, "a case variant of the cue.mod directory must be rejected"},
 			gateSpec{"lstat", atomErrVar(info, c15LstatErr(g)), true, "an entry that cannot be stat'ed must be rejected"},
 			gateSpec{"absolute", atomBoolCall(info, "path.IsAbs", true), true, "absolute paths must be rejected"},
+			gateSpec{"regular-file", atomBoolCall(info, "io/fs.FileMode.IsRegular", false), true, "only regular files may enter the archive (symlinks, devices, pipes are omitted)"},
 		)
 	}
 	for _, gs := range gates {
